@@ -119,6 +119,7 @@ type setAct struct {
 	Tick     uint64 `json:"t"`
 	Object   string `json:"o"`
 	Value    uint64 `json:"v"`
+	NoValid  bool   `json:"nv,omitempty"` // (attribution hypothesis only) the input's valid flag is not raised
 }
 
 type traceReq struct {
@@ -131,7 +132,7 @@ type traceReq struct {
 func (q traceReq) key() string {
 	var p []string
 	for _, s := range q.Sets {
-		p = append(p, fmt.Sprintf("%v/%d/%s/%d", s.Periodic, s.Tick, s.Object, s.Value))
+		p = append(p, fmt.Sprintf("%v/%d/%s/%d/%v", s.Periodic, s.Tick, s.Object, s.Value, s.NoValid))
 	}
 	sort.Strings(p)
 	return fmt.Sprintf("%s|%d|%d|%s", q.Machine, q.Ticks, q.StopOn, strings.Join(p, ","))
@@ -265,7 +266,15 @@ func runTrace(bm *bondmachine.Bondmachine, q traceReq) (tr trace) {
 		for _, s := range q.Sets {
 			if (!s.Periodic && s.Tick == uint64(t)) || (s.Periodic && s.Tick != 0 && uint64(t)%s.Tick == 0) {
 				_, set, _ := locate(vm, s.Object)
-				set(s.Value)
+				if s.NoValid && strings.HasPrefix(s.Object, "i") {
+					var k int
+					fmt.Sscanf(s.Object, "i%d", &k)
+					was := vm.InputsValid[k]
+					set(s.Value)
+					vm.InputsValid[k] = was
+				} else {
+					set(s.Value)
+				}
 			}
 		}
 		if _, err := vm.Step(nil); err != nil {
@@ -305,16 +314,17 @@ type hyp struct {
 	ShowAllIgnored  bool // config:show_all / show_all_internal print nothing
 	SuspSetActive   bool // suspended set rules are applied as if active
 	SuspRepActive   bool // suspended get/show/config rules are applied as if active
+	NeedValidLost   bool // an absolute set on an input listed after a periodic set on the same input does not raise valid
 }
 
-const nHyp = 7
+const nHyp = 8
 
 var hypNames = []string{"set-periodic|never-applied", "onrecv|never-fired", "event-get|never-reported",
 	"onexit|not-fired-at-interaction-limit", "config-show_all|never-shown", "suspended-set|still-applied",
-	"suspended-get-show|still-applied"}
+	"suspended-get-show|still-applied", "set-absolute|valid-not-raised-when-listed-after-periodic-set"}
 
 func hypFromMask(m int) hyp {
-	return hyp{m&1 != 0, m&2 != 0, m&4 != 0, m&8 != 0, m&16 != 0, m&32 != 0, m&64 != 0}
+	return hyp{m&1 != 0, m&2 != 0, m&4 != 0, m&8 != 0, m&16 != 0, m&32 != 0, m&64 != 0, m&128 != 0}
 }
 
 type simCase struct {
@@ -387,18 +397,23 @@ func (c simCase) traceReq(h hyp) (traceReq, error) {
 	if err != nil {
 		return q, err
 	}
+	perSeen := map[string]bool{}
 	for _, r := range rules {
 		if r.Action != "set" {
 			continue
 		}
-		if r.Timec == "relative" && h.PerSetIgnored {
-			continue
+		if r.Timec == "relative" {
+			perSeen[r.Object] = true
+			if h.PerSetIgnored {
+				continue
+			}
 		}
 		v, err := parseValue(r.Extra)
 		if err != nil {
 			return q, err
 		}
-		q.Sets = append(q.Sets, setAct{Periodic: r.Timec == "relative", Tick: r.Tick, Object: r.Object, Value: v & 0xff})
+		q.Sets = append(q.Sets, setAct{Periodic: r.Timec == "relative", Tick: r.Tick, Object: r.Object, Value: v & 0xff,
+			NoValid: h.NeedValidLost && r.Timec == "absolute" && perSeen[r.Object]})
 	}
 	return q, nil
 }
